@@ -38,6 +38,8 @@ var clientFSStubs = map[string]string{
 	"os.Stat":          "verifStubStat",
 	"os.CreateTemp":    "verifStubCreateTemp",
 	"os.Remove":        "verifStubRemove",
+	"os.MkdirAll":      "verifStubMkdirAll",
+	"os.Lstat":         "verifStubLstat",
 	"os.Rename":        "verifStubRename",
 	"(*os.File).Name":  "verifStubFileName",
 	"(*os.File).Write": "verifStubFileWrite",
@@ -72,6 +74,7 @@ func init() {
 		ch("verifHarnessC10NewStoreDoc", map[string]int{"names": 2, "fails": 1, "entrykinds": 2}, map[string]int{"names": 2, "fails": 2, "entrykinds": 3}, []string{"end-error", "end-ok", "end-from-cache"}, "NewStore with a cache document (valid or not, partial or complete)"),
 		ch("verifHarnessC10NewStoreBadCache", map[string]int{"fails": 1, "entrykinds": 2}, map[string]int{"fails": 2, "entrykinds": 3}, []string{"end-error", "end-ok"}, "NewStore with an unreadable, empty or arbitrary-bytes cache"),
 		chs("verifHarnessC10NewStoreStructs", map[string]int{}, nil, []string{"end-ok", "end-empty"}, "declared names from Secrets and from struct tags with duplicates across and within both, with and without a cache entry"),
+		chNoNative(ch("verifHarnessC10Backoff", map[string]int{}, nil, []string{"end"}, "14 failing rounds: pauses 1,2,4,...,4096,4096 ms; error once the context ends"), "the pauses are observed through the time.After stub (natively real timers would sleep ~30 s unobserved)"),
 		ch("verifHarnessC10Misconfig", map[string]int{}, nil, []string{"end"}, "misconfiguration is an error without any request"),
 		ch("verifHarnessC10FileClient", map[string]int{}, nil, []string{"end-present", "end-absent"}, "file-backed client: a missing declared secret fails at once, no waiting"))
 	propRegistry = append(propRegistry, c10)
@@ -82,6 +85,7 @@ func init() {
 	h2 := ch("verifHarnessC13FileClientReadsCache", map[string]int{"names": 2}, map[string]int{"names": 3}, []string{"end-present", "end-absent"}, "a cache document is accepted by NewFileClient with identical results for every non-empty secret")
 	h2.NoNative = fsNote
 	c13.Harnesses = append(c13.Harnesses, h1, h2,
+		chNoNative(ch("verifHarnessC13NewFileCache", map[string]int{}, nil, []string{"end", "end-refused"}, "NewFileCache: directory 0700, non-regular path refused"), fsNote),
 		ch("verifHarnessC13ShutdownFlush", map[string]int{"names": 2}, map[string]int{"names": 3}, []string{"end"}, "the poller flushes the whole active set on shutdown"),
 		ch("verifHarnessC10NewStoreDoc", map[string]int{"names": 2, "fails": 1, "entrykinds": 2}, map[string]int{"names": 2, "fails": 2, "entrykinds": 3}, []string{"end-ok", "end-from-cache"}, "flush after initial fetch; restart from any cache document without contacting the service"),
 		ch("verifHarnessC10NewStoreBadCache", map[string]int{"fails": 1, "entrykinds": 2}, map[string]int{"fails": 2, "entrykinds": 3}, []string{"end-ok"}, "unreadable, empty or arbitrary cache contents are never fatal"),
@@ -93,6 +97,7 @@ func init() {
 	c12.Harnesses = append(c12.Harnesses,
 		ch("verifHarnessC12ApplyUpdates", map[string]int{"names": 2}, map[string]int{"names": 3}, []string{"end"}, "applyUpdates with an arbitrary update set: invariant J, lock set, handles keep their names, values replaced never mutated"),
 		ch("verifHarnessC19HandleStamps", map[string]int{"names": 2}, map[string]int{"names": 3}, []string{"end-known"}, "a handle call returns its own installed bytes, sends no request, releases the lock"),
+		ch("verifHarnessC12Close", map[string]int{"names": 2}, map[string]int{"names": 3}, []string{"end"}, "Close cancels the poller and returns; handles keep serving afterwards"),
 		ch("verifHarnessC16Lookup", map[string]int{"names": 2}, map[string]int{"names": 3}, []string{"end-installed", "end-failed", "end-known", "end-disabled"}, "lookup under lock-set obligations: no request under the lock"),
 		ch("verifHarnessC11Refresh", map[string]int{"names": 2}, map[string]int{"names": 3}, []string{"end-ok"}, "poll keeps invariant J"))
 	propRegistry = append(propRegistry, c12)
@@ -122,5 +127,10 @@ func init() {
 func chs(name string, params, thorough map[string]int, reach []string, desc string) *HarnessSpec {
 	h := ch(name, params, thorough, reach, desc)
 	h.Stubs["github.com/tailscale/setec/client/setec.ParseFields"] = "verifStubParseFields"
+	return h
+}
+
+func chNoNative(h *HarnessSpec, why string) *HarnessSpec {
+	h.NoNative = why
 	return h
 }
